@@ -268,6 +268,23 @@ func (x *clExec) apply(op clOp) *vfutil.Failure {
 			return f
 		}
 		return x.checkAllReaders(fmt.Sprintf("step %d after Clean()", x.step), x.c.Flavor != "C09")
+	case "split":
+		// what the cleaner loop does when the active segment is due for a roll
+		// (segment.max.age): a new, still empty, active segment
+		if len(x.m.active().Msgs) == 0 {
+			return nil
+		}
+		old := x.l.activeSegment()
+		if err := x.l.split(old); err != nil {
+			return vfutil.Failf(x.sig("split-error"), "step %d: %v", x.step, err)
+		}
+		old.Seal()
+		x.m.Segs = append(x.m.Segs, &mSeg{Base: x.m.next()})
+		x.m.Rolls++
+		x.sawRoll = true
+		x.o.Label("empty-active-segment")
+	case "tslookup":
+		return x.tsLookup(op)
 	case "readonly":
 		x.m.Readonly = op.N%2 == 1
 		x.l.SetReadonly(x.m.Readonly)
@@ -283,6 +300,87 @@ func abs(i int) int {
 		return -i
 	}
 	return i
+}
+
+// tsLookup checks the two timestamp lookups against the model.
+func (x *clExec) tsLookup(op clOp) *vfutil.Failure {
+	all := x.m.all()
+	var cands []int64
+	var cls []string
+	for i, m := range all {
+		cands = append(cands, m.TS)
+		cls = append(cls, "at-message")
+		if i > 0 && all[i-1].TS+1 < m.TS {
+			cands = append(cands, (all[i-1].TS+m.TS)/2)
+			cls = append(cls, "between-messages")
+		}
+		if i > 0 && all[i-1].TS == m.TS {
+			x.o.Label("equal-timestamps")
+		}
+	}
+	cands = append(cands, 1, x.b.ts+1000)
+	cls = append(cls, "before-first", "after-last")
+	i := abs(op.Sel) % len(cands)
+	if op.Cls%3 == 1 { // prefer segment boundaries: the first timestamp of a segment and the one just before it
+		var b []int
+		for si, s := range x.m.Segs {
+			if si > 0 && len(s.Msgs) > 0 {
+				for j, t := range cands {
+					if t == s.Msgs[0].TS || t == s.Msgs[0].TS-1 {
+						b = append(b, j)
+					}
+				}
+			}
+		}
+		if len(b) > 0 {
+			i = b[abs(op.Sel)%len(b)]
+		}
+	}
+	t := cands[i]
+	x.o.Label("tslookup:" + cls[i])
+	wantE := x.m.newest() + 1
+	for _, m := range all {
+		if m.TS >= t {
+			wantE = m.Off
+			break
+		}
+	}
+	gotE, err := x.l.EarliestOffsetAfterTimestamp(t)
+	desc := fmt.Sprintf("step %d: timestamp %d on offsets %v with timestamps %v in segments %s", x.step, t, offsetsOf(all), tsOf(all), layoutString(x.m.Segs))
+	if err != nil {
+		return vfutil.Failf(x.sig("earliest-after-timestamp/error"), "%s: EarliestOffsetAfterTimestamp failed: %v (want %d)", desc, err, wantE)
+	}
+	if gotE != wantE {
+		return vfutil.Failf(x.sig("earliest-after-timestamp/wrong"), "%s: EarliestOffsetAfterTimestamp=%d, want %d", desc, gotE, wantE)
+	}
+	wantL := int64(-1)
+	for _, m := range all {
+		if m.TS <= t {
+			wantL = m.Off
+		}
+	}
+	gotL, err := x.l.LatestOffsetBeforeTimestamp(t)
+	if wantL == -1 {
+		if err == nil {
+			return vfutil.Failf(x.sig("latest-before-timestamp/no-error"), "%s: LatestOffsetBeforeTimestamp=%d but no message is that old", desc, gotL)
+		}
+		return nil
+	}
+	if err != nil {
+		return vfutil.Failf(x.sig("latest-before-timestamp/error"), "%s: LatestOffsetBeforeTimestamp failed: %v (want %d)", desc, err, wantL)
+	}
+	if gotL != wantL {
+		return vfutil.Failf(x.sig("latest-before-timestamp/wrong"), "%s: LatestOffsetBeforeTimestamp=%d, want %d", desc, gotL, wantL)
+	}
+	return nil
+}
+
+func tsOf(ms []*mMsg) []int64 {
+	r := make([]int64, len(ms))
+	for i, x := range ms {
+		r[i] = x.TS
+	}
+	return r
 }
 
 // startFor resolves a reader start selector against the model.
